@@ -81,6 +81,9 @@ def _richardson_job(job):
             y0 = np.array([0.5, 1.0])
         cls = generate_richardson_integrator(de.available_methods(False)[base], richardson_iter=lev)
         integ = cls((2,), dtype=np.float64, rtol=tol, atol=tol)
+        # an explicit basis takes the step it is given in EVERY attempt of the wrapper (its own adaptation is switched off); an implicit one
+        # may shorten a sub-step after a failed stage solve - such an attempt is rejected by the wrapper - so only the attempt handed back counts
+        explicit_base = not bool(integ.basis_integrators[0].is_implicit)
         logs = []
         for m, b in enumerate(integ.basis_integrators):
             orig = type(b).__call__
@@ -98,16 +101,62 @@ def _richardson_job(job):
                 attempts.append({})
             attempts[-1].setdefault(m, []).append((req, ret))
         last = attempts[-1]
+        eps = Fraction(num.eps_of(np.dtype("float64")))
+
+        def units(a, b, pieces):
+            return int(min(num.CAP, math.ceil(abs(a - b) / (eps * pieces * max(Fraction(1, 10 ** 6), abs(b))))))
+        # the attempt that is handed back: every level against the step reported; every attempt (also the ones the wrapper itself rejects
+        # and retries - their error estimate decides the retry): every level against what level 0 took in that attempt
         gaps = []
         for m in sorted(last):
             tot = sum((num.frac(x[1]) for x in last[m]), Fraction(0))
-            pieces = max(1, len(last[m]))
-            gaps.append(int(min(num.CAP, math.ceil(abs(tot - num.frac(dT)) / (Fraction(num.eps_of(np.dtype("float64"))) * pieces * max(Fraction(1, 10 ** 6), abs(num.frac(dT))))))))
+            worst = units(tot, num.frac(dT), max(1, len(last[m])))
+            for at in (attempts if explicit_base else []):
+                if m in at and 0 in at:
+                    t0_ = sum((num.frac(x[1]) for x in at[0]), Fraction(0))
+                    tm_ = sum((num.frac(x[1]) for x in at[m]), Fraction(0))
+                    worst = max(worst, units(tm_, t0_, max(1, len(at[m]))))
+            gaps.append(worst)
         out.update(ran=True, gap=gaps, longer=bool(abs(num.frac(dT)) > abs(Fraction(h))), sameSign=bool((float(dT) > 0) == (h > 0)),
                    shortened=bool(abs(num.frac(last[0][0][1])) < abs(num.frac(last[0][0][0]))), attempts=len(attempts))
     except de.exception_types.FailedToMeetTolerances as e:
         out["raised"] = True        # the wrapper gave up on this step: nothing was accepted, nothing to observe
         out["error"] = "FailedToMeetTolerances: %s" % str(e)[:80]
+    except Exception as e:     # noqa
+        out["error"] = "%s: %s" % (type(e).__name__, str(e)[:120])
+    return out
+
+
+def _richardson_short_job(job):
+    """A wrapper whose basis integrator SHORTENS the first step it is asked for (as an implicit method does after a failed stage solve), on
+    y' = c with tolerances that accept anything: every level's increment is c x (the span it integrated), so the returned increment equals
+    c x (the returned step) exactly iff all levels integrated the step that is reported (spec/RichardsonStep.tla; deviation signedComparison)."""
+    import desolver as de
+    from desolver.integrators import generate_richardson_integrator
+    base, lev, h = job
+    out = {"base": base + "+shortening", "levels": lev, "h": h, "prob": "constant", "tol": 1e30, "ran": False, "raised": False, "gap": [], "longer": False,
+           "sameSign": True, "shortened": True}
+    try:
+        cls0 = de.available_methods(False)[base]
+        armed = [True]
+
+        class Shortening(cls0):
+            def __call__(self, rhs_, t, y, c, dt):
+                if armed[0]:
+                    armed[0] = False
+                    return super().__call__(rhs_, t, y, c, dt * np.asarray(0.75, dtype=np.float64))      # 0.75: exact in binary
+                return super().__call__(rhs_, t, y, c, dt)
+        Shortening.__name__ = cls0.__name__
+        cls = generate_richardson_integrator(Shortening, richardson_iter=lev)
+        integ = cls((2,), dtype=np.float64, rtol=1e30, atol=1e30)
+        cvec = np.array([3.0, -0.5])
+        r = integ(de.DiffRHS(lambda t, y: cvec + 0.0 * y), np.float64(1.0), np.array([0.25, 2.0]), {}, np.float64(h))
+        dT, dY = r[1]
+        eps = Fraction(num.eps_of(np.dtype("float64")))
+        g_state = max(int(min(num.CAP, math.ceil(abs(num.frac(dY[k]) - num.frac(cvec[k]) * num.frac(dT)) / (eps * 64 * abs(num.frac(cvec[k]) * num.frac(dT)))))) for k in range(2))
+        g_adopt = int(min(num.CAP, math.ceil(abs(num.frac(dT) - Fraction(3, 4) * Fraction(h)) / (eps * abs(Fraction(h))))))
+        # one entry per level so that the judge's completeness clause applies: the state gap for every level, the adoption gap first
+        out.update(ran=True, gap=[max(g_adopt, g_state)] + [g_state] * (lev - 1), longer=bool(abs(num.frac(dT)) > abs(Fraction(h))), sameSign=bool((float(dT) > 0) == (h > 0)))
     except Exception as e:     # noqa
         out["error"] = "%s: %s" % (type(e).__name__, str(e)[:120])
     return out
@@ -125,7 +174,8 @@ def _richardson_phase(run):
             for h in (0.5, -0.5, 2.0, -2.0, 0.001, -0.001):
                 for prob in ("pendulum", "stiffish"):
                     jobs.append((base, lev, h, prob, 1e-10 if base not in ("BackwardEuler", "AHE") else 1e-4))
-    obs = core.pool_map(_richardson_job, jobs)
+    sjobs = [(b, lev, h) for b in ("RK4", "Midpoint") + (("Euler", "RK5") if thorough else ()) for lev in (2, 3, 5) for h in (0.5, -0.5, 2.0, -2.0)]
+    obs = core.pool_map(_richardson_job, jobs) + core.pool_map(_richardson_short_job, sjobs)
     for k, o in enumerate(obs):
         o["id"] = k
         run.evaluations += 1
